@@ -208,7 +208,8 @@ class Attribute(_BaseAttribute):
             return self._data[key]
         if self.elemsize>1:
             # never hand out the default object itself: an in-place update of the returned vector would change what every unset key reads
-            return Vec(np.array(self.default_value))
+            # (a scalar custom default is broadcast to elemsize components, as the dense storage does)
+            return Vec(np.full(self.elemsize, self.default_value, dtype=self.type.dtype))
         return self.default_value
 
     def __setitem__(self, key, value):
